@@ -337,8 +337,8 @@ func ruleTimeConservation(w *World, r *Report, pfx string) {
 				if !ok || add.Op != token.ADD {
 					return false
 				}
-				x, y := p.R(Val{add.X, v.F, v.E}), p.R(Val{add.Y, v.F, v.E})
-				return (isLoad(Val{V: x.V}, owner, "zDur") && y.V == durP) || (isLoad(Val{V: y.V}, owner, "zDur") && x.V == durP)
+				x, y := p.stripR(Val{add.X, v.F, v.E}), p.stripR(Val{add.Y, v.F, v.E})
+				return (p.loadsField(x, owner, "zDur") && y.V == durP) || (p.loadsField(y, owner, "zDur") && x.V == durP)
 			}
 			st := p.storesTo(owner, "zDur")
 			type addCall struct {
@@ -369,8 +369,8 @@ func ruleTimeConservation(w *World, r *Report, pfx string) {
 					bad = "the value added to the moving average is not a quotient"
 					return
 				}
-				num := p.R(Val{stripConv(q.X), av.F, av.E})
-				den := p.R(Val{stripConv(q.Y), av.F, av.E})
+				num := p.stripR(Val{q.X, av.F, av.E})
+				den := p.stripR(Val{q.Y, av.F, av.E})
 				if !isCarry(num) || den.V != nP {
 					bad = "the value added is not (carried time + this sample's time) / n"
 					return
@@ -813,6 +813,7 @@ func checkC20(w *World, r *Report) {
 	ruleMonotone(w, r, "C20")
 	ruleDivisorGuards(w, r, "C20")
 	ruleTimeConservation(w, r, "C20")
+	ruleProxyForward(w, r, "C20")
 	ruleSamplesReach(w, r, "C20")
 	ruleUnwrap(w, r, "C20")
 	ruleWrappersUnwrap(w, r, "C20")
